@@ -89,3 +89,143 @@ Proof.
       pose proof (get_pool_inv _ _ _ I1 Hg1) as PI1. rewrite Hh1 in PI1. apply (shp_upd _ _ _ _ _ _ _ _ PI1 Hu); [reflexivity|]. simpl. unfold rpsmap. rewrite map_map. reflexivity.
     + exists pa. split; [simpl; rewrite fold_other by exact Hni; exact Hg|]. left; split; reflexivity.
 Qed.
+
+Lemma rpsmap_nth rs : forall rs' j r, rpsmap rs' = rpsmap rs -> nth_error rs j = Some r ->
+  exists r', nth_error rs' j = Some r' /\ r_denom r' = r_denom r /\ r_rps r' = r_rps r.
+Proof.
+  unfold rpsmap. induction rs as [|a rs IH]; intros [|a' rs'] [|j] r H Hn; simpl in *; try discriminate.
+  - inversion Hn; subst. inversion H as [[Hd Hr Ht]]. exists a'. auto.
+  - inversion H as [[Hd Hr Ht]]. exact (IH rs' j r Ht Hn).
+Qed.
+
+(** per rule: the growth of the per-share value against what the checker calls released *)
+Lemma shape_rule h pa pb j ra :
+  shape h pa pb -> pool_inv h pa -> nth_error (p_rules pa) j = Some ra ->
+  exists rb, nth_error (p_rules pb) j = Some rb /\ r_denom rb = r_denom ra /\ r_rps ra <= r_rps rb
+    /\ (released pa pb ra = 0 -> r_rps rb = r_rps ra)
+    /\ (released pa pb ra <> 0 ->
+        0 < p_locked pa
+        /\ p_locked pa * (r_rps rb - r_rps ra) <= released pa pb ra * P18 < p_locked pa * (r_rps rb - r_rps ra) + p_locked pa).
+Proof.
+  intros [[Hl Hr]|[Hl Hr]] PI Hn.
+  - destruct (rpsmap_nth _ _ _ _ Hr Hn) as (rb & Hnb & Hd & Hrps). exists rb. rewrite (released_same_last _ _ _ Hl), Hrps.
+    repeat split; try assumption; try lia.
+  - pose proof (map_nth_error (collect1 (upd_iv h pa) (p_locked pa)) j (p_rules pa) Hn) as Hn1.
+    destruct (rpsmap_nth _ _ _ _ Hr Hn1) as (rb & Hnb & Hd & Hrps). exists rb.
+    rewrite (released_upd h pa pb ra Hl). simpl in Hd, Hrps. fold (dq (upd_iv h pa) (p_locked pa) ra) in Hrps.
+    pose proof (pi_rule _ _ PI) as Hok. rewrite Forall_forall in Hok. destruct (Hok ra (nth_error_In _ _ Hn)) as (_ & Hpb & _).
+    destruct (upd_iv_cases h pa (pi_last _ _ PI)) as [Hz|(Hpos & HL & _)].
+    + rewrite Hz in *. assert (dq 0 (p_locked pa) ra = 0) as Hq0.
+      { unfold dq, dec_quo_int, dec_of_int. rewrite Z.mul_0_r. reflexivity. }
+      rewrite Hq0 in Hrps. split; [exact Hnb|]. split; [exact Hd|]. split; [lia|]. split; [intros _; lia|]. intros Hc. lia.
+    + destruct (dq_bounds (upd_iv h pa) (p_locked pa) ra HL ltac:(nia)) as [Hq0 Hq].
+      split; [exact Hnb|]. split; [exact Hd|]. split; [lia|]. split; [intros Hc; nia|]. intros _. split; [exact HL|].
+      rewrite Hrps. replace (r_rps ra + dq (upd_iv h pa) (p_locked pa) ra - r_rps ra) with (dq (upd_iv h pa) (p_locked pa) ra) by lia. lia.
+Qed.
+
+(** ** rational arithmetic *)
+Definition P18p : positive := Z.to_pos P18.
+Lemma P18p_eq : Z.pos P18p = P18.
+Proof. reflexivity. Qed.
+
+Open Scope Q_scope.
+Lemma Qmake_plus a b p : (a + b)%Z # p == (a # p) + (b # p).
+Proof. rewrite Qinv_plus_distr. reflexivity. Qed.
+
+Lemma Qmake_le_cross a p b q : (a * Z.pos q <= b * Z.pos p)%Z -> a # p <= b # q.
+Proof. intros H. unfold Qle. simpl. exact H. Qed.
+
+Lemma acc_bounds F eps f e l L dr :
+  (0 < L)%Z -> (0 <= l)%Z -> (L * dr <= e * P18 < L * dr + L)%Z ->
+  F # P18p <= f -> f <= (F + eps)%Z # P18p ->
+  (F + dr * l)%Z # P18p <= Qred (f + ((e * l)%Z # Z.to_pos L))
+  /\ Qred (f + ((e * l)%Z # Z.to_pos L)) <= (F + dr * l + (eps + l))%Z # P18p.
+Proof.
+  intros HL Hl Hdr H1 H2. rewrite Qred_correct.
+  assert (Z.pos (Z.to_pos L) = L) as EL by (apply Z2Pos.id; exact HL).
+  split.
+  - rewrite Qmake_plus. apply Qplus_le_compat; [exact H1|]. apply Qmake_le_cross. rewrite EL, P18p_eq. nia.
+  - replace (F + dr * l + (eps + l))%Z with ((F + eps) + (dr * l + l))%Z by lia. rewrite Qmake_plus.
+    apply Qplus_le_compat; [exact H2|]. apply Qmake_le_cross. rewrite EL, P18p_eq. nia.
+Qed.
+Close Scope Q_scope.
+
+(** ** one key of the checker's map against the pro-rata abstraction of that farmer and rule *)
+Definition Rsh (sh : share) (x : fstate) : Prop :=
+  sh_paid sh = a_paid x /\ sh_n sh = a_n x /\ 0 <= sh_eps sh
+  /\ Qle (a_fair x # P18p) (sh_fair sh) /\ Qle (sh_fair sh) ((a_fair x + sh_eps sh) # P18p).
+
+Lemma find_denom_nth rs : forall j r, NoDup (map r_denom rs) -> nth_error rs j = Some r ->
+  find (fun x => eqb (r_denom x) (r_denom r)) rs = Some r.
+Proof.
+  induction rs as [|a rs IH]; intros [|j] r Hnd Hn; simpl in *; try discriminate.
+  - inversion Hn; subst. rewrite eqb_refl. reflexivity.
+  - inversion Hnd as [|? ? Hni Hnd']; subst. destruct (eqb (r_denom a) (r_denom r)) eqn:E.
+    + apply (proj1 (eqb_true_iff _ _)) in E. exfalso. apply Hni. rewrite E. apply in_map. exact (nth_error_In _ _ Hn).
+    + exact (IH j r Hnd' Hn).
+Qed.
+
+Lemma pay_acts w pid st :
+  match farmer_op st with
+  | Some (w0, pid0) => if (w0 =? w) && (pid0 =? pid) then act_of w pid st <> None else act_of w pid st = None
+  | None => act_of w pid st = None
+  end.
+Proof.
+  destruct st as [m|]; [destruct m|]; simpl; try reflexivity;
+    match goal with |- context [(?a =? w) && (?b =? pid)] => destruct ((a =? w) && (b =? pid)); [discriminate|reflexivity] end.
+Qed.
+
+Lemma share_step w pid j s st x r sh oc0 rw0 :
+  inv s -> valid_step st -> rule_j pid j s = Some r -> sim w pid j s x -> Rsh sh x ->
+  Rsh (step_spec (obs_of s oc0 rw0) st (obs_after s st) (w, pid, r_denom r) sh)
+      (fold_left fstep' (events_of_step w pid j s st) x).
+Proof.
+  intros I Hv Hr Hs (Rp & Rn & Re & Rlo & Rhi).
+  destruct (sim_step w pid j s st x r I Hv Hr Hs) as ((r' & Hr') & Hs' & Hp & Hf & Hn & _). cbv zeta in Hs', Hp, Hf, Hn.
+  set (x' := fold_left fstep' (events_of_step w pid j s st) x) in *.
+  pose proof (step_inv s st I Hv) as I'.
+  unfold rule_j in Hr. destruct (get pid (pools s)) as [pa|] eqn:Hg; [|discriminate].
+  pose proof (get_pool_inv _ _ _ I Hg) as PI.
+  destruct (shape_lemma s st pid pa I Hv Hg) as (pb & Hgb & Hshape). fold (step_state s st) in Hgb.
+  destruct (shape_rule _ _ _ _ _ Hshape PI Hr) as (rb & Hnb & Hd & Hmono & Hz & Hnz).
+  pose proof (get_pool_inv _ _ _ I' Hgb) as PIb.
+  assert (r' = rb) as -> by (unfold rule_j in Hr'; rewrite Hgb, Hnb in Hr'; congruence).
+  assert (rps_of pid j s = r_rps r) as Er by (unfold rps_of, rule_j; rewrite Hg, Hr; reflexivity).
+  assert (rps_of pid j (step_state s st) = r_rps rb) as Erb by (unfold rps_of, rule_j; rewrite Hgb, Hnb; reflexivity).
+  unfold fair_in in Hf. rewrite Erb, Er in Hf.
+  (* the accrual *)
+  assert (let sh1 := acc_spec (obs_of s oc0 rw0) (obs_after s st) (w, pid, r_denom r) sh in
+          sh_paid sh1 = sh_paid sh /\ sh_n sh1 = sh_n sh /\ 0 <= sh_eps sh1
+          /\ Qle (a_fair x' # P18p) (sh_fair sh1) /\ Qle (sh_fair sh1) ((a_fair x' + sh_eps sh1) # P18p)) as Hacc.
+  { cbv zeta. unfold acc_spec. change (o_pools (obs_of s oc0 rw0)) with (pools s). change (o_pools (obs_after s st)) with (pools (step_state s st)).
+    rewrite Hg, Hgb, (find_denom_nth _ _ _ (pi_denoms _ _ PI) Hr).
+    destruct (Z.eqb_spec (released pa pb r) 0) as [He|He].
+    - rewrite (Hz He) in Hf. replace (a_fair x') with (a_fair x) by lia. repeat split; assumption.
+    - destruct (Hnz He) as [HL Hb]. unfold l_of, rec_of in Hf. rewrite Hg in Hf.
+      destruct (get w (p_farmers pa)) as [f|] eqn:Ef.
+      + destruct (farmer_ok _ _ _ _ PI Ef) as [Hl _]. unfold acc_g. cbn [sh_paid sh_n sh_eps sh_fair].
+        destruct (acc_bounds (a_fair x) (sh_eps sh) (sh_fair sh) (released pa pb r) (f_locked f) (p_locked pa) (r_rps rb - r_rps r) HL Hl Hb Rlo Rhi) as [B1 B2].
+        rewrite Hf. split; [reflexivity|]. split; [reflexivity|]. split; [lia|]. split; [exact B1|].
+        replace (a_fair x + (r_rps rb - r_rps r) * f_locked f + (sh_eps sh + f_locked f)) with (a_fair x + (r_rps rb - r_rps r) * f_locked f + (sh_eps sh + f_locked f)) by lia. exact B2.
+      + replace (a_fair x') with (a_fair x) by lia. repeat split; assumption. }
+  cbv zeta in Hacc. destruct Hacc as (A1 & A2 & A3 & A4 & A5).
+  unfold step_spec. cbv zeta. set (sh1 := acc_spec (obs_of s oc0 rw0) (obs_after s st) (w, pid, r_denom r) sh) in *.
+  assert (ok_step s st = (o_code (obs_after s st) =? 0)) as Eok by reflexivity.
+  unfold paid_in in Hp. unfold acts_in in Hn. rewrite Hr' in Hp. rewrite Eok in Hp, Hn.
+  pose proof (pay_acts w pid st) as Hpa.
+  destruct (o_code (obs_after s st) =? 0) eqn:Ec; cbn [negb].
+  2:{ unfold Rsh. assert (a_paid x' = a_paid x /\ a_n x' = a_n x) as [-> ->] by (destruct (act_of w pid st); lia). repeat split; try assumption; lia. }
+  destruct (farmer_op st) as [[w0 pid0]|].
+  - unfold pay_spec. destruct ((w =? w0) && (pid =? pid0)) eqn:Ewp.
+    + apply andb_true_iff in Ewp. destruct Ewp as [E1 E2]. apply Z.eqb_eq in E1. apply Z.eqb_eq in E2. subst w0 pid0.
+      rewrite !Z.eqb_refl in Hpa. cbn [andb] in Hpa. destruct (act_of w pid st) as [delta|]; [|congruence].
+      change (o_pools (obs_after s st)) with (pools (step_state s st)). rewrite Hgb.
+      assert (find (fun x0 => eqb (r_denom x0) (r_denom r)) (p_rules pb) = Some rb) as ->.
+      { rewrite <- Hd. exact (find_denom_nth _ _ _ (pi_denoms _ _ PIb) Hnb). }
+      unfold Rsh, pay_sh. cbn [sh_paid sh_n sh_eps sh_fair]. change (o_rw (obs_after s st)) with (snd (exec_step s st)).
+      rewrite Hd in Hp. repeat split; try lia; assumption.
+    + assert (act_of w pid st = None) as Ea.
+      { rewrite (Z.eqb_sym w w0), (Z.eqb_sym pid pid0) in Ewp. rewrite Ewp in Hpa. exact Hpa. }
+      rewrite Ea in Hp, Hn. unfold Rsh. assert (a_paid x' = a_paid x /\ a_n x' = a_n x) as [-> ->] by lia. repeat split; try assumption; lia.
+  - rewrite Hpa in Hp, Hn. unfold Rsh. assert (a_paid x' = a_paid x /\ a_n x' = a_n x) as [-> ->] by lia. repeat split; try assumption; lia.
+Qed.
